@@ -12,6 +12,12 @@ CHECKS = {
          "written reference; the pypdf stream wrapper is checked for every length 0..64 x 3 key sizes; wrong lengths must raise ValueError only.",
          "Trusts vf/gen/refaes.py (self-checked against the standard's vectors on every run). Random part is sampling: absence of a key/block-specific fault is not proved, "
          "but AES being table-driven and linear in MixColumns, the exhaustive parts cover every table entry the cipher can touch.", "DESIGN.md §4 C20"),
+ "C19": ("exploration", "exhaustive enumeration of small OMML trees + Hypothesis random trees against an independent reference renderer",
+         "Every structural element with every optional child/attribute present or absent is enumerated alone, between runs and nested one level into every operand slot; "
+         "random trees to depth 6 (property elements interleaved, all mapped symbols, brackets, malformed radicals, oMathPara). Oracle: totality, determinism, every run token "
+         "exactly once in source order, brace balance, and full match against an independently written reference renderer (regex, whitespace-insensitive).",
+         "Reference renderer and symbol table (derived from Unicode names) are trusted; trees follow schema child order; trees with malformed radicals are judged by clauses 1-4 only; "
+         "sampling beyond the enumerated sizes.", "DESIGN.md §4 C19"),
 }
 NOT_YET = {}
 
